@@ -439,6 +439,8 @@ pub fn gen_ds(r: &mut Rng, depth: u32, o: &GenOpts) -> Obj {
         _ => r.usize(3, 7),
     };
     let n = if depth > 3 { n.min(2) } else { n };
+    // an empty top-level data set is a degenerate case: keep it rare
+    let n = if depth == 0 && n == 0 && !r.chance(1, 8) { 2 } else { n };
     let mut obj = Obj::new_empty();
     for _ in 0..n {
         let tag = gen_tag(r);
